@@ -84,7 +84,8 @@ inductive AStep (g : Cfg) (i : Nat) (s s' : MState) : Prop where
       s'.entry = s.entry → s'.addr = s.addr →
       (∀ off v, AMap.get (g.get i).memIn (.stack off) = some v →
         s'.mem (s.entry 2 + off) = s.mem (s.entry 2 + off)) → AStep g i s s'
-  | entry : (g.get i).node.isAnyEntry = true → (g.get i).regIn = [] →
+  | entry : (g.get i).node.isAnyEntry = true →
+      ((g.get i).node.isFunctionEntry = true ∨ (g.get i).regIn = []) →
       (∀ r, s'.entry r = s'.reg r) → s'.reg 0 = 0#32 → AStep g i s s'
 
 inductive AExec (g : Cfg) (V : List Nat) (i0 : Nat) (s0 : MState) : Nat → MState → Prop where
@@ -198,8 +199,7 @@ theorem exec_sound_all (g : Cfg) (V : List Nat) (hf : GoodFactsM g V) (i0 : Nat)
       | entry hen hempty hact hz =>
         refine ⟨?_, ?_, by rw [hact 0]; exact hz, hz⟩
         · apply sound_of_get_eq s' _ _ (hf.eqOut i hi)
-          rw [hempty]
-          exact entry_transfer_sound (g.get i) _ s' hen hact hz
+          exact entry_transfer_sound (g.get i) _ _ s' hen hempty hact hz
         · apply memSound_of_get_eq s' _ _ (hf.eqMemOut i hi)
           rw [entry_memOut_nil _ _ _ _ hen]
           intro off v hget
